@@ -183,6 +183,7 @@ FullSync<'a, ItemType, OgreAllocatorType, BUFFER_SIZE, MAX_STREAMS> {
         unsafe { ogre_arc_item.increment_references(running_streams_count) };
         let used_streams = self.streams_manager.used_streams();
         for i in 0..running_streams_count {
+            vp!("mc.fan.read", i);
             let stream_id = *unsafe { used_streams.get_unchecked(i as usize) };
             if stream_id != u32::MAX {
                 let dispatcher_manager = unsafe { self.dispatcher_managers.get_unchecked(stream_id as usize) };
